@@ -933,6 +933,86 @@ func c15RestoredCleanMark(r *Run, idx int) {
 	}
 }
 
+// c15SlowInvalidation: a Set that overwrites a resident key also removes the key's older copy from the secondary
+// store. Here that removal is slow (held inside the store's Delete) while the key is forced out of memory: whichever
+// of the two finishes first, the value of the Set - which returns true - must be in one of the tiers afterwards.
+// Every wait only paces the script and is bounded; the verdict is the Get after everything has settled.
+func c15SlowInvalidation(r *Run, idx int) {
+	kind := []string{"hybrid", "hybrid-loading"}[idx%2]
+	bar := &secBarrier{}
+	internal.VerifSetHook(bar.hook)
+	defer internal.VerifSetHook(nil)
+	defer r.Eval(1)
+	var loads atomic.Int64
+	a, err := newAnyCache(kind, anyOpts{MaxSize: 200, KeepLog: true, Workers: 1, Prob: 1, ProbSet: true,
+		Loader: func(ctx context.Context, k int) (theine.Loaded[int64], error) {
+			return theine.Loaded[int64]{Value: 9_000_000 + loads.Add(1), Cost: 1}, nil
+		}})
+	if err != nil {
+		r.Broken("build: %v", err)
+		return
+	}
+	defer a.store().Close()
+	k := 300 + idx
+	v1, v2 := int64(k)<<8|1, int64(k)<<8|2
+	var ttl time.Duration
+	if idx%4 >= 2 {
+		ttl = time.Hour
+	}
+	a.set(k, v1, 1, ttl)
+	if idx%3 == 0 { // the older value has a copy in the secondary store: demoted and promoted again
+		a.wait()
+		if !bar.demote(a, k) {
+			r.Inconclusive(1)
+			return
+		}
+		_, _, _ = a.get(context.Background(), k)
+	}
+	a.wait()
+	gate := make(chan struct{})
+	a.sec.mu.Lock()
+	a.sec.delGate = gate
+	a.sec.mu.Unlock()
+	setDone, evDone := make(chan struct{}), make(chan struct{})
+	go func() { a.set(k, v2, 1, ttl); close(setDone) }()
+	for i := 0; i < 20000 && a.sec.inDel.Load() == 0; i++ {
+		time.Sleep(50 * time.Microsecond)
+	}
+	inside := a.sec.inDel.Load() > 0
+	e0 := bar.enq.Load()
+	go func() { a.store().VerifEvict(k); close(evDone) }()
+	handedOff := false
+	for i := 0; i < 600 && !handedOff; i++ { // up to 30 ms
+		time.Sleep(50 * time.Microsecond)
+		handedOff = bar.enq.Load() > e0 && bar.enq.Load() == bar.done.Load()
+	}
+	a.sec.mu.Lock()
+	a.sec.delGate = nil
+	a.sec.mu.Unlock()
+	close(gate)
+	<-setDone
+	<-evDone
+	if !bar.settle(a) {
+		c15Unsettled(r, a, "slow-invalidation script")
+		return
+	}
+	l0 := loads.Load()
+	got, ok, gerr := a.get(context.Background(), k)
+	if gerr != nil || !ok || loads.Load() > l0 || got != v2 {
+		r.Violate("evicted-entry-not-retrievable/overwritten-while-its-invalidation-of-the-secondary-copy-was-slow", fmt.Sprintf("%s cache: Set(%d, %d) resident; Set(%d, %d) held inside the secondary store's Delete (reached: %v) while the key was forced out of memory (hand-off completed during the hold: %v); after release and barrier Get returned (%d,%v,err=%v), loader ran: %v, in secondary store: %s - the Set had returned true", kind, k, v1, k, v2, inside, handedOff, got, ok, gerr, loads.Load() > l0, secHas(a, k)),
+			map[string]any{"cache": kind, "secondary_log": tailLog(a.sec.log(), 10)})
+	}
+	if inside {
+		r.Count("overwrites_with_a_held_invalidation", 1)
+		if handedOff {
+			r.Count("handoffs_completed_while_the_invalidation_was_held", 1)
+		}
+		r.Distinct(fmt.Sprintf("slow-invalidation/%s/ttl=%v/copy=%v", kind, ttl > 0, idx%3 == 0))
+	} else {
+		r.Inconclusive(1)
+	}
+}
+
 // c15Unsettled is called when the hand-off barrier never settles (writes applied, yet enqueued != processed after
 // the generous bound). That alone is inconclusive - unless the goroutine dump shows why: the cache is open and fewer
 // hand-off workers exist than it was built with (workers of caches closed earlier can only add to the count, never
@@ -984,6 +1064,7 @@ func runC15(r *Run) {
 			c15EvictionOvertakesUpdate(r, i)
 			c15PooledReuse(r, i)
 			c15RestoredCleanMark(r, i)
+			c15SlowInvalidation(r, i)
 		}
 	}
 }
